@@ -130,26 +130,51 @@ def extract_apply(path, cls):
     pre_src = '\n'.join(ast.unparse(s) for s in prelude if not isinstance(s, ast.Expr) or not isinstance(s.value, ast.Constant))
     if 'assert_operator_arity(op, v, w' not in pre_src:
         shape_ok = False
-    node = chain
-    while True:
-        al = _is_op_test(node.test)
-        if al is not None:
-            rows.append((al, _templ(node.body)))
-        else:
-            # guards `elif v is None: raise ValueError` are implied by the arity check
-            t = ast.unparse(node.test)
-            if not (t in ('v is None', 'w is None') and len(node.body) == 1
-                    and isinstance(node.body[0], ast.Raise)):
-                rows.append(([], '.bad'))
-        if len(node.orelse) == 1 and isinstance(node.orelse[0], ast.If):
-            node = node.orelse[0]
-        else:
-            if node.orelse:
-                shape_ok = False
-            break
-    # after the chain: `raise ValueError`
+    # The decision list: one if/elif chain, or several chains / plain `if`s in sequence whose
+    # bodies all end in `return` / `raise` (then falling through to the next statement is the
+    # same as `elif`), possibly with a Boolean local holding an operator test
+    # (`is_q = op in (...)` ... `if is_q:`).  Anything else makes the shape not ok.
     idx = f.body.index(chain)
-    tail = f.body[idx + 1:]
+    env = {}
+    i = idx
+    while i < len(f.body):
+        st = f.body[i]
+        if (isinstance(st, ast.Assign) and len(st.targets) == 1 and isinstance(st.targets[0], ast.Name)
+                and _is_op_test(st.value) is not None):
+            env[st.targets[0].id] = st.value
+            i += 1
+            continue
+        if not isinstance(st, ast.If):
+            break
+        node = st
+        bodies = []
+        while True:
+            test = node.test
+            if isinstance(test, ast.Name) and test.id in env:
+                test = env[test.id]
+            al = _is_op_test(test)
+            if al is not None:
+                rows.append((al, _templ(node.body)))
+            else:
+                # guards `elif v is None: raise ValueError` are implied by the arity check
+                t = ast.unparse(test)
+                if not (t in ('v is None', 'w is None') and len(node.body) == 1
+                        and isinstance(node.body[0], ast.Raise)):
+                    rows.append(([], '.bad'))
+            bodies.append(node.body)
+            if len(node.orelse) == 1 and isinstance(node.orelse[0], ast.If):
+                node = node.orelse[0]
+            else:
+                if node.orelse:
+                    shape_ok = False
+                break
+        i += 1
+        if i < len(f.body) and isinstance(f.body[i], (ast.If, ast.Assign)):
+            # another decision follows: equivalent to `elif` only if nothing falls through
+            if not all(b and isinstance(b[-1], (ast.Return, ast.Raise)) for b in bodies):
+                shape_ok = False
+    # after the decisions: `raise ValueError`
+    tail = f.body[i:]
     if not (len(tail) == 1 and isinstance(tail[0], ast.Raise)):
         shape_ok = False
     return rows, shape_ok
